@@ -61,3 +61,17 @@ package server
 //@   ensures @preserved step(s, ok, n) == maxInt(0, n - ite(ok, 0, f + 1))
 //@   ensures @healthy_iff_fewer_than_n (step(s, ok, n) > 0) == (ite(ok, 0, f + 1) < n)
 //@   ensures @one_success_restores ok ==> step(s, ok, n) == n
+//@
+//@ func (*Server).serveSign
+//@   property C06
+//@   ghost signedOK bool = false
+//@   ghost signAudit *audit.Info = nil
+//@   ghost signedBlob []byte = nil
+//@   ghost published bool = false
+//@   ghost pubCount int = 0
+//@   on call dynamic .Sign(_, _, o) ret (b, e): signedOK = (e == nil); signAudit = o.Audit; signedBlob = b
+//@   on call signinit.PublishAudit(i) ret (e): published = (e == nil) && signedOK && i == signAudit; pubCount = pubCount + 1
+//@   before call invoke net/http.ResponseWriter.Write(_, b): assert @audit_published_before_response published
+//@   before call invoke net/http.ResponseWriter.Write(_, b): assert @response_is_the_signed_blob sameslice(b, signedBlob)
+//@   ensures @exactly_one_audit_record ret0 == nil ==> pubCount == 1 && published
+//@   ensures @no_record_without_signature pubCount >= 1 ==> signedOK
